@@ -639,10 +639,25 @@ func (w *hsWorld) complete(s *hsSlot, res *Result, o *hsOut, consumed []byte) {
 	s.consumed = append([]byte(nil), consumed...)
 }
 
+// hsCallerBuf alternates between the two documented ways of calling Initiate / ProcessPacket: out == nil (the Machine
+// allocates) and a caller-owned buffer handed over as buf[:0] (sometimes too small, so that it has to grow).
+var hsBufCalls int
+
+func hsCallerBuf() []byte {
+	hsBufCalls++
+	switch hsBufCalls % 3 {
+	case 1:
+		return make([]byte, 0, 4096)
+	case 2:
+		return make([]byte, 0, 8)
+	}
+	return nil
+}
+
 func (w *hsWorld) initiate(name string) hsOut {
 	s := w.slot(name)
 	o := hsOut{Slot: name}
-	out, err := s.m.Initiate(nil)
+	out, err := s.m.Initiate(hsCallerBuf())
 	if err != nil {
 		o.Err = err.Error()
 	} else if s.st == 0 {
@@ -657,7 +672,7 @@ func (w *hsWorld) process(name string, pkt []byte) hsOut {
 	s := w.slot(name)
 	o := hsOut{Slot: name}
 	before := append([]byte(nil), s.m.hs.ChannelBinding()...)
-	out, res, err := s.m.ProcessPacket(nil, pkt)
+	out, res, err := s.m.ProcessPacket(hsCallerBuf(), pkt)
 	if err != nil {
 		o.Err = err.Error()
 	}
